@@ -312,3 +312,41 @@ def op_signature(prog) -> str:
         return f"({op_signature(prog[1])}{'U' if op == 'chain' else 'J'}{op_signature(prog[2])})"
     short = {"calc": "c", "proj": "p", "sel": "s", "dedup": "d", "sort": "o", "slice": "l", "mat": "m", "xfer": "x"}
     return op_signature(prog[1]) + short[op]
+
+
+def chain_with_name_twin(g: Gen, state, rng):
+    """Chain a program with the same program over "twin" leaves: same library name, columns and
+    engine (so the relations compare equal) but different rows and truthful bounds of their own.
+    Returns the new state or None if the program cannot be twinned."""
+    from .model import subprograms
+
+    prog, cols, eng = state
+    twins = {}
+    for name in {s[1] for s in subprograms(prog) if s[0] == "leaf"}:
+        spec = g.leaves[name]
+        if spec.get("kind") != "normal" or spec.get("table_of") or spec.get("mapping_key") or name.endswith("t"):
+            return None
+        t = dict(spec)
+        t["libname"] = spec.get("libname", name)
+        shift = rng.choice([-3, 2, 4])
+        t["rows"] = [[v + shift for v in r] for r in spec["rows"]] if rng.random() < 0.7 else []
+        if rng.random() < 0.4:
+            t["rows"] = t["rows"] + [list(r) for r in t["rows"][:2]]
+        n = len(t["rows"])
+        t["min"], t["max"] = (n, n) if spec.get("min") == len(spec["rows"]) and spec.get("max") == len(spec["rows"]) else (0, None)
+        twins[name] = t
+    if not twins:
+        return None
+    for name, t in twins.items():
+        g.leaves[name + "t"] = t
+    ops = ("leaf", "calc", "proj", "sel", "dedup", "sort", "slice", "chain", "join", "mat", "xfer")
+
+    def retarget(p):
+        if p[0] == "leaf":
+            return ["leaf", p[1] + "t"]
+        if p[0] == "mat":
+            return ["mat", retarget(p[1]), p[2] + "t"]
+        return [retarget(x) if isinstance(x, list) and x and isinstance(x[0], str) and x[0] in ops else x for x in p]
+
+    twin_prog = retarget(prog)
+    return (["chain", prog, twin_prog] if rng.random() < 0.5 else ["chain", twin_prog, prog], cols, eng)
